@@ -1,10 +1,15 @@
 import Goat.Base.Drive
 import Goat.Model.JsonDecoder
+import Goat.Model.Registry
 /-
 Driver ops of C07: the jsonutils Decoder model run on a decoded JSON object, returning the class
 and the RENDERED TEXT of the first recorded error (rendering is part of the property).
   c07.getter  [str pkg, obj raw, str getter, str name]  → ["ok", [str class, str text]]
   c07.setFixed [int n (or none = nil *big.Int), int size] → ["ok", str class] | ["panic", site]
+  c07.link [arr sigLinked, arr kmLinked, arr encLinked, str kind, …] → ["ok", alg] | ["err", cls] | ["panic", site]
+      kind "jws": [str|none protectedAlg, str|none unprotectedAlg]   jws.JWKKeyFinder.FindKey
+      kind "jwt": [str keyAlg, str headerAlg]                         jwt guessAlg
+      kind "jwe": [str alg, str enc, bool unwrapOk]                   head of jwe.Message.Decrypt
 -/
 namespace Drive.C07
 open Model.JsonDecoder
@@ -35,7 +40,23 @@ def setFixed (n : Wire) (size : Nat) : PO Wire := do
   let e ← ({ raw := [] } : Enc).setFixedBigInt "x" i size
   pure (.str (e.err.getD ""))
 
+def strs (w : Wire) : List String := w.asArr.map Wire.asStr
+def optStr : Wire → Option String | .str s => some s | _ => none
+
+def link (a : List Wire) : Wire :=
+  let l : Model.Registry.Link := ⟨strs (arg a 0), strs (arg a 1), strs (arg a 2)⟩
+  let kind := (arg a 3).asStr
+  let r : Outcome String :=
+    if kind == "jws" then Model.Registry.jwsFindKey l (optStr (arg a 4)) (optStr (arg a 5))
+    else if kind == "jwt" then Model.Registry.jwtGuessAlg l (arg a 4).asStr (arg a 5).asStr
+    else Model.Registry.jweDecryptHead l (arg a 4).asStr (arg a 5).asStr (arg a 6).asBool
+  match r with
+  | .ok s => Outcome.toWire (.ok (.str s))
+  | .err c => Outcome.toWire (.err c)
+  | .panic p => Outcome.toWire (.panic p)
+
 def ops : OpTable := [
+  ("c07.link", pureOp link),
   ("c07.getter", fun a => (runGetter (arg a 0).asStr (arg a 1) (arg a 2).asStr (arg a 3).asStr).toOp),
   ("c07.setFixed", fun a => (setFixed (arg a 0) (arg a 1).asNat).toOp)
 ]
